@@ -120,6 +120,8 @@ type rbDecl struct {
 	attr   int
 	funcValue bool // initialised with a function value
 	dupInStat bool // the same local statement declares this name more than once
+	emptyInit bool // declared without a value, with nil or with {} (LuaHelper then adopts the value of the first assignment as "the" initialiser)
+	assigned  bool // an assignment to it has been seen
 }
 
 type rbOcc struct {
@@ -133,6 +135,7 @@ type rbOcc struct {
 	slv   int      // block nesting depth relative to the innermost enclosing function body
 	ctx   []string // names declared by the statement in whose initialiser / bounds this occurrence sits
 	ctxKind int    // 1 local statement initialiser, 2 numeric-for bounds, 3 generic-for expression list, 4 right-hand side of an assignment to plain names
+	ctxRisky bool  // (ctxKind 4) the occurrence sits in the value that the FIRST assignment gives to a local declared empty (local x; x = f(x)), and that value as a whole is a name, a call or a function: the resolver takes it for x's initialiser
 	ctxSafe bool   // (ctxKind 1) the occurrence sits in the initialiser expression of the very name it spells, and that expression as a whole is a name, a call or a function: the shapes the position-based resolver recognises
 }
 
@@ -149,6 +152,7 @@ type rbT struct {
 	ctx     []string
 	ctxKind int
 	ctxSafeName string
+	ctxRiskyName string
 	fnBase []int // block depth at which each enclosing function body starts
 	decls []rbDecl
 	occs  []rbOcc
@@ -199,7 +203,7 @@ func (r *rbT) use(name string, loc lexer.Location, kind int) {
 			r.decls[d].writes++
 		}
 	}
-	r.occs = append(r.occs, rbOcc{name: name, loc: loc, kind: kind, decl: d, file: r.file, depth: r.depth, blk: len(r.stack), slv: r.slv(), ctx: r.ctx, ctxKind: r.ctxKind, ctxSafe: r.ctxSafeName != "" && r.ctxSafeName == name})
+	r.occs = append(r.occs, rbOcc{name: name, loc: loc, kind: kind, decl: d, file: r.file, depth: r.depth, blk: len(r.stack), slv: r.slv(), ctx: r.ctx, ctxKind: r.ctxKind, ctxSafe: r.ctxSafeName != "" && r.ctxSafeName == name, ctxRisky: r.ctxRiskyName != "" && r.ctxRiskyName == name})
 }
 
 func (r *rbT) slv() int {
@@ -296,6 +300,15 @@ func (r *rbT) stat(s ast.Stat) {
 				if _, isF := st.ExpList[i].(*ast.FuncDefExp); isF {
 					r.decls[id].funcValue = true
 				}
+				switch x := st.ExpList[i].(type) {
+				case *ast.NilExp:
+					r.decls[id].emptyInit = true
+				case *ast.TableConstructorExp:
+					r.decls[id].emptyInit = len(x.KeyExps) == 0 && len(x.ValExps) == 0
+				}
+			} else {
+				// (no value of its own; when the last value is a call it may still receive one)
+				r.decls[id].emptyInit = true
 			}
 			for k, m := range st.NameList {
 				if k != i && m == n {
@@ -314,12 +327,27 @@ func (r *rbT) stat(s ast.Stat) {
 			}
 		}
 		r.ctx, r.ctxKind = targets, 4
-		for _, e := range st.ExpList {
+		for i, e := range st.ExpList {
+			r.ctxRiskyName = ""
+			if i < len(st.VarList) {
+				if ne, ok := st.VarList[i].(*ast.NameExp); ok {
+					if d := r.resolve(ne.Name); d >= 0 && r.decls[d].kind == rbLocal && r.decls[d].emptyInit && !r.decls[d].assigned {
+						switch e.(type) {
+						case *ast.NameExp, *ast.FuncCallExp, *ast.FuncDefExp:
+							r.ctxRiskyName = ne.Name
+						}
+					}
+				}
+			}
 			r.exp(e)
 		}
+		r.ctxRiskyName = ""
 		r.ctx, r.ctxKind = nil, 0
 		for _, v := range st.VarList {
 			if ne, ok := v.(*ast.NameExp); ok {
+				if d := r.resolve(ne.Name); d >= 0 {
+					r.decls[d].assigned = true
+				}
 				r.use(ne.Name, ne.Loc, rbOccWrite)
 			} else {
 				r.exp(v)
@@ -504,6 +532,8 @@ var vpTemplates = []string{
 	/* 50 */ "local \x03 = 0\no:next(function(\x01)\n local \x02 = \x01\n return \x02 + \x03\nend):next(function(\x02)\n return \x02 + \x03\nend):catch(function(\x01)\n g = \x01\nend)\n",
 	// computed table keys that are compound expressions: names read only there
 	/* 51 */ "local \x01, \x02, \x03 = \"p\", 1, 2\nlocal t = { [\x01 .. \"k\"] = 1, [\x02 + 1] = 2, [-\x03] = 3, [(\x04)] = 4, [#\x05] = 5, [not \x06] = 6 }\ng = t\n",
+	// re-assignment from a call that takes the old value: forward-declared locals, parameters, loop variables
+	/* 52 */ "local \x01\n\x01 = f(\x02)\nlocal function h(\x03, \x05)\n \x03 = g(\x03)\n \x05 = \x05:lower()\n for _, \x04 in ipairs(t) do\n  \x04 = trim(\x04)\n end\n return \x03, \x05\nend\n",
 }
 
 // vpInstantiate fills the holes of template t with symbolic names; tag prefixes the variable names.
